@@ -7,6 +7,40 @@ import Heathcliff.Proofs.GenCkks
 namespace HC
 open Ckks GenK
 
+/-- the six inner `for j` bodies, EXACTLY as generated (i = coefficient index, cc = coeff_count) -/
+def gkNeg64 (moduli : List Modulus) (v2 v5 v8 : Nat) (v9 : Nat) (dest : List Nat) : R (List Nat) := do
+  let t5 ← ckMul v9 v2
+  let t6 ← ckAdd v5 t5
+  let t7 ← idxT moduli v9
+  let t8 ← GenP.mod_reduce t7 v8
+  let t9 ← idxT moduli v9
+  let t10 ← GenW.negate_u64_mod t8 t9
+  let dest ← setIdx dest t6 t10
+  pure dest
+def gkPos64 (moduli : List Modulus) (v2 v5 v8 : Nat) (v10 : Nat) (dest : List Nat) : R (List Nat) := do
+  let t11 ← ckMul v10 v2
+  let t12 ← ckAdd v5 t11
+  let t13 ← idxT moduli v10
+  let t14 ← GenP.mod_reduce t13 v8
+  let dest ← setIdx dest t12 t14
+  pure dest
+def gkNeg128 (moduli : List Modulus) (v2 v11 : Nat) (v12 : Int) (v14 : Nat) (dest : List Nat) : R (List Nat) := do
+  let t16 ← ckMul v14 v2
+  let t17 ← ckAdd v11 t16
+  let t18 ← idxT moduli v14
+  let t19 ← GenW.barrett_reduce_u128 (fToU64 (fmod64 v12)) (fToU64 (fdiv64 v12)) t18
+  let t20 ← idxT moduli v14
+  let t21 ← GenW.negate_u64_mod t19 t20
+  let dest ← setIdx dest t17 t21
+  pure dest
+def gkPos128 (moduli : List Modulus) (v2 v11 : Nat) (v12 : Int) (v15 : Nat) (dest : List Nat) : R (List Nat) := do
+  let t22 ← ckMul v15 v2
+  let t23 ← ckAdd v11 t22
+  let t24 ← idxT moduli v15
+  let t25 ← GenW.barrett_reduce_u128 (fToU64 (fmod64 v12)) (fToU64 (fdiv64 v12)) t24
+  let dest ← setIdx dest t23 t25
+  pure dest
+
 def gkRow64 (moduli : List Modulus) (v2 : Nat) (rc : List Int) (v5 : Nat) (dest : List Nat) : R (List Nat) := do
   let v1 : Nat := moduli.length
   let t4 ← idxI rc v5
@@ -14,26 +48,10 @@ def gkRow64 (moduli : List Modulus) (v2 : Nat) (rc : List Int) (v5 : Nat) (dest 
   let v7 : Bool := decide (v6 < 0)
   let v8 : Nat := (fToU64 (fabs v6))
   let dest ← (if (v7 = true) then (do
-      let dest ← forRange 0 v1 dest (fun v9 dest => do
-          let t5 ← ckMul v9 v2
-          let t6 ← ckAdd v5 t5
-          let t7 ← idxT moduli v9
-          let t8 ← GenP.mod_reduce t7 v8
-          let t9 ← idxT moduli v9
-          let t10 ← GenW.negate_u64_mod t8 t9
-          let dest ← setIdx dest t6 t10
-          pure dest
-        )
+      let dest ← forRange 0 v1 dest (gkNeg64 moduli v2 v5 v8)
       pure dest
     ) else (do
-      let dest ← forRange 0 v1 dest (fun v10 dest => do
-          let t11 ← ckMul v10 v2
-          let t12 ← ckAdd v5 t11
-          let t13 ← idxT moduli v10
-          let t14 ← GenP.mod_reduce t13 v8
-          let dest ← setIdx dest t12 t14
-          pure dest
-        )
+      let dest ← forRange 0 v1 dest (gkPos64 moduli v2 v5 v8)
       pure dest
     ) : R (List Nat))
   pure dest
@@ -45,26 +63,10 @@ def gkRow128 (moduli : List Modulus) (v2 : Nat) (rc : List Int) (v11 : Nat) (des
   let v13 : Bool := decide (v12 < 0)
   let v12 : Int := (fabs v12)
   let dest ← (if (v13 = true) then (do
-      let dest ← forRange 0 v1 dest (fun v14 dest => do
-          let t16 ← ckMul v14 v2
-          let t17 ← ckAdd v11 t16
-          let t18 ← idxT moduli v14
-          let t19 ← GenW.barrett_reduce_u128 (fToU64 (fmod64 v12)) (fToU64 (fdiv64 v12)) t18
-          let t20 ← idxT moduli v14
-          let t21 ← GenW.negate_u64_mod t19 t20
-          let dest ← setIdx dest t17 t21
-          pure dest
-        )
+      let dest ← forRange 0 v1 dest (gkNeg128 moduli v2 v11 v12)
       pure dest
     ) else (do
-      let dest ← forRange 0 v1 dest (fun v15 dest => do
-          let t22 ← ckMul v15 v2
-          let t23 ← ckAdd v11 t22
-          let t24 ← idxT moduli v15
-          let t25 ← GenW.barrett_reduce_u128 (fToU64 (fmod64 v12)) (fToU64 (fdiv64 v12)) t24
-          let dest ← setIdx dest t23 t25
-          pure dest
-        )
+      let dest ← forRange 0 v1 dest (gkPos128 moduli v2 v11 v12)
       pure dest
     ) : R (List Nat))
   pure dest
@@ -168,5 +170,120 @@ theorem gk_f64_polynomial_unfold (valid is_ckks : Bool) (nvalues slots : Nat) (s
        let d ← gkStageRaw (satAdd mb 1) nvalues moduli degree rc decompose (fillL (resizeL dest sz) 0)
        if ntt_len ≠ moduli.length then .error .refused else
        (nttP d degree >>= fun t => pure t)) := rfl
+
+/-! ### the rows compute c mod q_j -/
+
+theorem gk_reduce64 {m : Modulus} (h : m.WF) {c : Int} (hc : c.natAbs < 2^64) :
+    GenP.mod_reduce m (fToU64 (fabs c)) = .ok (c.natAbs % m.value) := by
+  have hs : fToU64 (fabs c) = c.natAbs := by
+    rw [gk_fabs_nat, gk_fToU64_nat]; unfold satU64; rw [if_pos (by rw [B64_eq]; exact hc)]
+  rw [hs]; unfold GenP.mod_reduce; rw [gw_barrett_reduce_u64_eq]; exact barrett64_exact h hc
+
+theorem gk_reduce128 {m : Modulus} (h : m.WF) {c : Int} (hc : c.natAbs < 2^128) :
+    GenW.barrett_reduce_u128 (fToU64 (fmod64 (fabs c))) (fToU64 (fdiv64 (fabs c))) m = .ok (c.natAbs % m.value) := by
+  have hhi : c.natAbs / B64 < 2^64 := by
+    rw [B64_eq, Nat.div_lt_iff_lt_mul (by norm_num)]; norm_num at hc ⊢; exact hc
+  have hlo : c.natAbs % B64 < 2^64 := by rw [B64_eq]; exact Nat.mod_lt _ (by norm_num)
+  have h0 : fToU64 (fmod64 (fabs c)) = c.natAbs % B64 := by
+    rw [gk_fabs_nat, gk_fmod64_nat, gk_fToU64_nat]; unfold satU64; rw [if_pos (by rw [B64_eq]; exact hlo)]
+  have h1 : fToU64 (fdiv64 (fabs c)) = c.natAbs / B64 := by
+    rw [gk_fabs_nat, gk_fdiv64_nat, gk_fToU64_nat]; unfold satU64; rw [if_pos (by rw [B64_eq]; exact hhi)]
+  have e : c.natAbs % B64 + 2 ^ 64 * (c.natAbs / B64) = c.natAbs := by
+    rw [← B64_eq]; exact Nat.mod_add_div _ _
+  rw [h0, h1, gw_barrett_reduce_u128_eq, barrett128_exact h hlo hhi, e]
+
+theorem gk_negate_res {m : Modulus} (h : m.WF) {c : Int} (hneg : c < 0) :
+    GenW.negate_u64_mod (c.natAbs % m.value) m = .ok (c12_res c m.value) := by
+  have := c12a_signFix h c
+  unfold signFix at this
+  rw [decide_eq_true hneg, if_pos rfl] at this
+  rw [gw_negate_u64_mod_eq]; exact this
+
+theorem gk_pos_res {m : Modulus} {c : Int} (hpos : ¬ c < 0) : c.natAbs % m.value = c12_res c m.value :=
+  (c12a_res_nonneg (by omega) _).symm
+
+section rows
+variable {moduli : List Modulus} {cc i : Nat}
+
+theorem gk_pos_cks (hi : i < cc) {j : Nat} (hj : j < moduli.length) (hsz : cc * moduli.length < 2^64) :
+    ckMul j cc = .ok (j * cc) ∧ ckAdd i (j * cc) = .ok (i + j * cc) := by
+  have := gk_pos_lt hi hj
+  exact ⟨gk_ckMul_ok (by omega), gk_ckAdd_ok (by omega)⟩
+
+theorem gkNeg64_ok (hwf : ∀ j (h : j < moduli.length), moduli[j].WF) (hi : i < cc) (hsz : cc * moduli.length < 2^64)
+    {c : Int} (hneg : c < 0) (hc : c.natAbs < 2^64) {j : Nat} (hj : j < moduli.length) (d : List Nat) (hd : d.length = cc * moduli.length) :
+    gkNeg64 moduli cc i (fToU64 (fabs c)) j d = .ok (d.set (i + j * cc) (c12_res c moduli[j].value)) := by
+  obtain ⟨e1, e2⟩ := gk_pos_cks hi hj hsz
+  have e3 := gk_setIdx_ok (l := d) (c12_res c moduli[j].value) (by rw [hd]; exact gk_pos_lt hi hj)
+  simp only [gkNeg64, e1, e2, gk_idxT_ok hj, gk_reduce64 (hwf j hj) hc, gk_negate_res (hwf j hj) hneg, e3, bind, Except.bind, pure, Except.pure]
+
+theorem gkPos64_ok (hwf : ∀ j (h : j < moduli.length), moduli[j].WF) (hi : i < cc) (hsz : cc * moduli.length < 2^64)
+    {c : Int} (hpos : ¬ c < 0) (hc : c.natAbs < 2^64) {j : Nat} (hj : j < moduli.length) (d : List Nat) (hd : d.length = cc * moduli.length) :
+    gkPos64 moduli cc i (fToU64 (fabs c)) j d = .ok (d.set (i + j * cc) (c12_res c moduli[j].value)) := by
+  obtain ⟨e1, e2⟩ := gk_pos_cks hi hj hsz
+  have e3 := gk_setIdx_ok (l := d) (c12_res c moduli[j].value) (by rw [hd]; exact gk_pos_lt hi hj)
+  rw [← gk_pos_res hpos] at e3 ⊢
+  simp only [gkPos64, e1, e2, gk_idxT_ok hj, gk_reduce64 (hwf j hj) hc, e3, bind, Except.bind, pure, Except.pure]
+
+theorem gkNeg128_ok (hwf : ∀ j (h : j < moduli.length), moduli[j].WF) (hi : i < cc) (hsz : cc * moduli.length < 2^64)
+    {c : Int} (hneg : c < 0) (hc : c.natAbs < 2^128) {j : Nat} (hj : j < moduli.length) (d : List Nat) (hd : d.length = cc * moduli.length) :
+    gkNeg128 moduli cc i (fabs c) j d = .ok (d.set (i + j * cc) (c12_res c moduli[j].value)) := by
+  obtain ⟨e1, e2⟩ := gk_pos_cks hi hj hsz
+  have e3 := gk_setIdx_ok (l := d) (c12_res c moduli[j].value) (by rw [hd]; exact gk_pos_lt hi hj)
+  simp only [gkNeg128, e1, e2, gk_idxT_ok hj, gk_reduce128 (hwf j hj) hc, gk_negate_res (hwf j hj) hneg, e3, bind, Except.bind, pure, Except.pure]
+
+theorem gkPos128_ok (hwf : ∀ j (h : j < moduli.length), moduli[j].WF) (hi : i < cc) (hsz : cc * moduli.length < 2^64)
+    {c : Int} (hpos : ¬ c < 0) (hc : c.natAbs < 2^128) {j : Nat} (hj : j < moduli.length) (d : List Nat) (hd : d.length = cc * moduli.length) :
+    gkPos128 moduli cc i (fabs c) j d = .ok (d.set (i + j * cc) (c12_res c moduli[j].value)) := by
+  obtain ⟨e1, e2⟩ := gk_pos_cks hi hj hsz
+  have e3 := gk_setIdx_ok (l := d) (c12_res c moduli[j].value) (by rw [hd]; exact gk_pos_lt hi hj)
+  rw [← gk_pos_res hpos] at e3 ⊢
+  simp only [gkPos128, e1, e2, gk_idxT_ok hj, gk_reduce128 (hwf j hj) hc, e3, bind, Except.bind, pure, Except.pure]
+
+/-- the property of one finished row -/
+def GkRowDone (moduli : List Modulus) (cc i : Nat) (c : Int) (d d' : List Nat) : Prop :=
+  d'.length = cc * moduli.length ∧ (∀ j (hj : j < moduli.length), d'[i + j * cc]? = some (c12_res c moduli[j].value)) ∧
+    (∀ p, p % cc ≠ i → d'[p]? = d[p]?)
+
+theorem gk_getD_mod {j : Nat} (hj : j < moduli.length) : moduli.getD j default = moduli[j] := by
+  simp [List.getD, List.getElem?_eq_getElem hj]
+
+/-- ≤ 64-bit row as generated: row i of the buffer receives c_i mod q_j for every j, whatever the sign -/
+theorem gkRow64_spec (hwf : ∀ j (h : j < moduli.length), moduli[j].WF) (hi : i < cc) (hsz : cc * moduli.length < 2^64)
+    {rc : List Int} (hir : i < rc.length) (hc : rc[i].natAbs < 2^64) (d : List Nat) (hd : d.length = cc * moduli.length) :
+    ∃ d', gkRow64 moduli cc rc i d = .ok d' ∧ GkRowDone moduli cc i rc[i] d d' := by
+  have hf : ∀ j (hj : j < moduli.length), c12_res rc[i] (moduli.getD j default).value = c12_res rc[i] moduli[j].value := by
+    intro j hj; rw [gk_getD_mod hj]
+  by_cases hneg : rc[i] < 0
+  · obtain ⟨d', e, hl, h1, h2⟩ := gk_row_spec (cc := cc) (k := moduli.length) (i := i)
+      (fun j => c12_res rc[i] (moduli.getD j default).value) (gkNeg64 moduli cc i (fToU64 (fabs rc[i]))) d
+      (by intro j d1 hj hd1; rw [hf j hj]; exact gkNeg64_ok hwf hi hsz hneg hc hj d1 hd1) hi hd
+    refine ⟨d', ?_, hl, fun j hj => by rw [h1 j hj, hf j hj], h2⟩
+    simp only [gkRow64, gk_idxI_ok hir, bind, Except.bind, decide_eq_true hneg, if_true, e, pure, Except.pure]
+  · obtain ⟨d', e, hl, h1, h2⟩ := gk_row_spec (cc := cc) (k := moduli.length) (i := i)
+      (fun j => c12_res rc[i] (moduli.getD j default).value) (gkPos64 moduli cc i (fToU64 (fabs rc[i]))) d
+      (by intro j d1 hj hd1; rw [hf j hj]; exact gkPos64_ok hwf hi hsz hneg hc hj d1 hd1) hi hd
+    refine ⟨d', ?_, hl, fun j hj => by rw [h1 j hj, hf j hj], h2⟩
+    simp only [gkRow64, gk_idxI_ok hir, bind, Except.bind, decide_eq_false hneg, Bool.false_eq_true, if_false, e, pure, Except.pure]
+
+/-- ≤ 128-bit row as generated -/
+theorem gkRow128_spec (hwf : ∀ j (h : j < moduli.length), moduli[j].WF) (hi : i < cc) (hsz : cc * moduli.length < 2^64)
+    {rc : List Int} (hir : i < rc.length) (hc : rc[i].natAbs < 2^128) (d : List Nat) (hd : d.length = cc * moduli.length) :
+    ∃ d', gkRow128 moduli cc rc i d = .ok d' ∧ GkRowDone moduli cc i rc[i] d d' := by
+  have hf : ∀ j (hj : j < moduli.length), c12_res rc[i] (moduli.getD j default).value = c12_res rc[i] moduli[j].value := by
+    intro j hj; rw [gk_getD_mod hj]
+  by_cases hneg : rc[i] < 0
+  · obtain ⟨d', e, hl, h1, h2⟩ := gk_row_spec (cc := cc) (k := moduli.length) (i := i)
+      (fun j => c12_res rc[i] (moduli.getD j default).value) (gkNeg128 moduli cc i (fabs rc[i])) d
+      (by intro j d1 hj hd1; rw [hf j hj]; exact gkNeg128_ok hwf hi hsz hneg hc hj d1 hd1) hi hd
+    refine ⟨d', ?_, hl, fun j hj => by rw [h1 j hj, hf j hj], h2⟩
+    simp only [gkRow128, gk_idxI_ok hir, bind, Except.bind, decide_eq_true hneg, if_true, e, pure, Except.pure]
+  · obtain ⟨d', e, hl, h1, h2⟩ := gk_row_spec (cc := cc) (k := moduli.length) (i := i)
+      (fun j => c12_res rc[i] (moduli.getD j default).value) (gkPos128 moduli cc i (fabs rc[i])) d
+      (by intro j d1 hj hd1; rw [hf j hj]; exact gkPos128_ok hwf hi hsz hneg hc hj d1 hd1) hi hd
+    refine ⟨d', ?_, hl, fun j hj => by rw [h1 j hj, hf j hj], h2⟩
+    simp only [gkRow128, gk_idxI_ok hir, bind, Except.bind, decide_eq_false hneg, Bool.false_eq_true, if_false, e, pure, Except.pure]
+
+end rows
 
 end HC
